@@ -1,6 +1,7 @@
 package main
 
 import (
+	"golang.org/x/tools/go/ssa"
 	"encoding/json"
 	"fmt"
 	"os"
@@ -27,6 +28,7 @@ func main() {
 			fmt.Println("ERR", err)
 			os.Exit(1)
 		}
+		discovered := map[string]bool{}
 		for _, n := range os.Args[2:] {
 			mode := ""
 			var track []string
@@ -38,8 +40,30 @@ func main() {
 				}
 			}
 			for _, n1 := range expandNames(p, n) {
+				if discovered[n1] {
+					continue
+				}
+				discovered[n1] = true
 				if err := discoverGuards(p, n1, mode, track); err != nil {
 					fmt.Println("ERR", err)
+					continue
+				}
+				// closures of an anchor function are part of it
+				var anon func(fn *ssa.Function)
+				anon = func(fn *ssa.Function) {
+					for _, a := range fn.AnonFuncs {
+						an := fullFuncName(a)
+						if !discovered[an] {
+							discovered[an] = true
+							if err := discoverGuards(p, an, "", track); err != nil {
+								fmt.Println("ERR", err)
+							}
+						}
+						anon(a)
+					}
+				}
+				if fn := p.Func(n1); fn != nil {
+					anon(fn)
 				}
 			}
 		}
